@@ -243,6 +243,31 @@ def check(ck):
     # for nestings of lists, tuples, sets, dicts and primitives dump only recurses: it contains no raise statement (a
     # validation added to it - depth limit, "circular reference" guard - rejects finite structures that share a sub-object)
     rz = [x for x in ast.walk(fdump.node) if isinstance(x, ast.Raise)]
+    def _ancestor_guard(r_):
+        """the raise is guarded by `id(obj) in P` (or a local holding id(obj)) where P is a parameter that is only ever rebound to a NEW
+        collection built from it (P.union(..), P | .., frozenset(..)) and never modified in place: P then holds the ancestors of the
+        current value on this path alone, and the test is true only for a structure that contains itself (infinite for dump anyway)"""
+        gd_ = cfg_of(fdump)
+        for (t_, pol_) in q.guards_of(gd_, next((n_ for n_ in gd_.live_nodes() if n_.ast is r_), None) or gd_.entry):
+            if isinstance(t_, ast.Compare) and len(t_.ops) == 1 and isinstance(t_.ops[0], ast.In) and pol_ and isinstance(t_.comparators[0], ast.Name) and \
+                    t_.comparators[0].id in fdump.params:
+                pn_ = t_.comparators[0].id
+                lhs_ = dump(t_.left)
+                is_id = lhs_ == "id(obj)" or any(isinstance(st_, ast.Assign) and dump(st_.value) == "id(obj)" and
+                                                 any(isinstance(x_, ast.Name) and x_.id == lhs_ for x_ in st_.targets) for st_ in ast.walk(fdump.node))
+                mutated = any(isinstance(c_, ast.Call) and isinstance(c_.func, ast.Attribute) and dump(c_.func.value) == pn_ and
+                              c_.func.attr in ("add", "append", "update", "extend", "insert", "discard", "remove", "pop", "clear", "setdefault")
+                              for c_ in ast.walk(fdump.node)) or \
+                    any(isinstance(st_, ast.AugAssign) and dump(st_.target) == pn_ for st_ in ast.walk(fdump.node)) or \
+                    any(isinstance(x_, ast.Subscript) and isinstance(x_.ctx, (ast.Store, ast.Del)) and dump(x_.value) == pn_ for x_ in ast.walk(fdump.node))
+                rebinds = [st_.value for st_ in ast.walk(fdump.node) if isinstance(st_, ast.Assign) and any(dump(x_) == pn_ for x_ in st_.targets)]
+                fresh = all((isinstance(v_, ast.Call) and ((isinstance(v_.func, ast.Name) and v_.func.id in ("frozenset", "set", "tuple")) or
+                                                          (isinstance(v_.func, ast.Attribute) and v_.func.attr == "union" and dump(v_.func.value) == pn_))) or
+                            (isinstance(v_, ast.BinOp) and isinstance(v_.op, (ast.BitOr, ast.Add)) and dump(v_.left) == pn_) for v_ in rebinds)
+                if is_id and not mutated and rebinds and fresh:
+                    return True
+        return False
+    rz = [x for x in rz if not _ancestor_guard(x)]
     ck.require(not rz, "C15.6", "jsonclass.dump: no raise statement", "dump only recurses / delegates",
                "dump contains `%s`: plain data for which that condition holds (e.g. the same list or empty tuple reachable twice) is rejected "
                "instead of being converted" % (dump(rz[0])[:60] if rz else ""), q.loc(fdump, rz[0]) if rz else "")
@@ -311,6 +336,10 @@ def check(ck):
                     a == ("const", None) for a in prov.alts(t[1])) and any(a != ("const", None) for a in prov.alts(t[1])):
                 kind = "handler"
                 ck.ok("C15.2", "%s: `%s`" % (q.fn(fi), q.stmt_text(rn)[:50]), "registered handler's result", q.loc(fi, rn))
+            elif fi is fdump and t[0] == "call" and any(a[0] == "call" and a[1][0] == "global" and ("jsonclass." + a[1][1]) in prog.funcs and
+                                                        any(prov.show(x_).endswith("serialize_handlers") for x_ in a[2]) for a in prov.alts(t[1])):
+                # the handler is picked by a new helper of the package that is given the handler table: which handler it hands back is not followed
+                raise AnalysisError("jsonclass.dump calls a handler selected by a helper function (`%s`): not modelled" % prov.show(t[1])[:60])
             elif fi is fdump and isinstance(v, ast.Name) and all(a[0] == "other" and a[1].startswith("{'__jsonclass__'") for a in prov.alts(t)):
                 kind = "descriptor"
                 ck.ok("C15.2", "%s: `%s`" % (q.fn(fi), q.stmt_text(rn)), "descriptor dictionary", q.loc(fi, rn))
